@@ -17,6 +17,7 @@ impl Sign {
 }
 //@@ INCLUDE lib/ratio_types.rs
 //@@ INCLUDE lib/ratio2_cmp_stubs.rs
+//@@ INCLUDE lib/ratio2_unique_lemmas.rs
 //@@ INCLUDE lib/ratio2_cmp_lemmas.rs
 //@@ FN rational/cmp/repr_eq.rs
 //@@ FN rational/cmp/repr_cmp.rs
